@@ -3,12 +3,13 @@ from run import Family, VERIF, REPO
 
 NTOK = 31
 CHUNK = 1000
+REDUCED = [0, 3, 6, 11, 16, 17, 18, 20]    # x -a -n --aa=off --str -e --exec=p 'q r' -t
 MAIN = r'for \(i = 1, opt = SPIF_CHARPTR\(argv\[1\]\); i < argc; \)'
 BOUNDS = {
-    'quick': {'argument words': '0..2 from a 31-token alphabet (every sequence), plus every 64th 3-word sequence',
+    'quick': {'argument words': '0..2 from a 31-token alphabet (every sequence), plus every 128th 3-word sequence and every 4th 4-word sequence over a reduced 8-token alphabet',
               'table variants': '3 (no pre-parse options / v,str,exec,theme pre-parse / a,num,cc pre-parse with long-only str,exec,theme)',
               'settings': 'pre-parse x remove-args, all four (shape)', 'symbolic per query': 'three 32-bit masks (overlapping or not), two 64-bit flag words, integer targets'},
-    'thorough': {'argument words': '0..2 (every sequence, all four settings), every 8th 3-word sequence (two settings each)', 'table variants': '3', 'symbolic per query': 'as quick'},
+    'thorough': {'argument words': '0..2 (every sequence, all four settings), every 8th 3-word sequence (two settings each), every 4-word sequence over the reduced 8-token alphabet', 'table variants': '3', 'symbolic per query': 'as quick'},
 }
 RULE = 'C08 shapes: (table variant, token sequence); the token alphabet is harness/c08_opts.c:tokens.'
 ASSUMPTIONS = ['the ideal reading is harness/c08_opts.c:ref_parse (written from the property statement and the documented value-discovery rules)',
@@ -34,14 +35,27 @@ def families(tier):
         obls = []
         for ln in range(0, 4):
             total = NTOK ** ln
-            step = 1 if ln < 3 else (64 if q else 8)
-            for code in range(tv % step, total, step):
+            step = 1 if ln < 3 else (128 if q else 8)
+            for code in range(total):
+                if step > 1 and ((code * 40503 + 12345 + tv) % 65521) % step != 0:
+                    continue
                 # settings: the four combinations of pass and argument removal (concrete, see the harness)
                 for k, (st, sn) in enumerate(((0, 'normal'), (2, 'normal+remove'), (1, 'preparse'), (3, 'preparse+remove'))):
                     # quick: all four settings for 0-1 words, one of the four (rotating) beyond; thorough: all four up to
                     # 2 words, two of the four (rotating) for the sampled 3-word sequences
                     if ln < 2 or (not q and ln == 2) or (code // step + tv) % 4 == k or (not q and (code // step + tv + 2) % 4 == k):
                         obls.append(('C08/parse/tv=%d,len=%d,code=%d,pass=%s' % (tv, ln, code, sn), tv, ln, code, st))
+        # four words over a reduced alphabet (one token of each kind): state carried from one word to the next
+        # (e.g. a flag left over from an earlier --long=VALUE) needs a list option followed by two more words
+        for c4 in range(len(REDUCED) ** 4):
+            h = (c4 * 40503 + 12345) % 65521        # sampling by a scrambled index: a plain stride aligns with the digit structure
+            if q and (h % 3 != tv or (h // 3) % 4 != 0):
+                continue
+            digs = [(c4 // len(REDUCED) ** k) % len(REDUCED) for k in range(4)]
+            code = sum(REDUCED[d] * NTOK ** k for k, d in enumerate(digs))
+            for k, (st, sn) in enumerate(((0, 'normal'), (2, 'normal+remove'), (1, 'preparse'), (3, 'preparse+remove'))):
+                if (h // 12) % 4 == k or (not q and (h // 12 + 2) % 4 == k):
+                    obls.append(('C08/parse/tv=%d,len=4,code=%d,pass=%s' % (tv, code, sn), tv, 4, code, st))
         # one goto binary holds at most CHUNK entry functions (program loading time grows with their number)
         for c in range(0, len(obls), CHUNK):
             f = Family('parse_tv%d_%d' % (tv, c // CHUNK), 'c08_opts.c', units=['options.c', 'strings.c', 'debug.c'],
